@@ -14,6 +14,7 @@ import (
 	"fmt"
 	"math"
 	"math/big"
+	"math/bits"
 	"strings"
 
 	bgvpoly "github.com/tuneinsight/lattigo/v6/circuits/bgv/polynomial"
@@ -97,6 +98,11 @@ func (l *c13LogEval) Rescale(a, o *rlwe.Ciphertext) error {
 // ---------- contexts ----------
 
 type c13Ctx struct {
+	// when set, every runCase uses these (one polynomial evaluator for a SEQUENCE of evaluations:
+	// the slot-mapping buffer of its CoefficientGetter is shared between them)
+	sbgv  *bgvpoly.Evaluator
+	sckks *ckkspoly.Evaluator
+	slog  *c13LogEval
 	scheme string
 	logN   int
 	t      uint64
@@ -266,9 +272,14 @@ func (x *c13Ctx) runCase(c *Ctx, cs *c13Case) {
 			}
 			inScale = ct.Scale
 			target = x.bp.NewScale(cs.tscale)
-			real := bgv.NewEvaluator(x.bp, x.evk)
-			pe := bgvpoly.NewEvaluator(x.bp, real)
-			pe.Evaluator.Evaluator = &c13LogEval{Evaluator: real, tr: &tr, bgv: true}
+			pe := x.sbgv
+			if pe != nil {
+				x.slog.tr = &tr
+			} else {
+				real := bgv.NewEvaluator(x.bp, x.evk)
+				pe = bgvpoly.NewEvaluator(x.bp, real)
+				pe.Evaluator.Evaluator = &c13LogEval{Evaluator: real, tr: &tr, bgv: true}
+			}
 			var pol interface{}
 			if cs.mapping == nil {
 				p := cpoly.NewPolynomial(mk(cs.polys[0]))
@@ -308,9 +319,14 @@ func (x *c13Ctx) runCase(c *Ctx, cs *c13Case) {
 			}
 			inScale = ct.Scale
 			target = x.cp.DefaultScale()
-			real := ckks.NewEvaluator(x.cp, x.evk)
-			pe := ckkspoly.NewEvaluator(x.cp, real)
-			pe.Evaluator.Evaluator = &c13LogEval{Evaluator: real, tr: &tr, bgv: false}
+			pe := x.sckks
+			if pe != nil {
+				x.slog.tr = &tr
+			} else {
+				real := ckks.NewEvaluator(x.cp, x.evk)
+				pe = ckkspoly.NewEvaluator(x.cp, real)
+				pe.Evaluator.Evaluator = &c13LogEval{Evaluator: real, tr: &tr, bgv: false}
+			}
 			var pol interface{}
 			if cs.mapping == nil {
 				p := cpoly.NewPolynomial(mk(cs.polys[0]))
@@ -571,7 +587,171 @@ func genC13(c *Ctx) {
 					x.runCase(c, cs)
 				}
 			}
+			c13Sequences(c, x)
+			if scheme == "ckks" {
+				c13SparseChebyshev(c, x)
+			}
 		}
+	}
+}
+
+// c13Sequences: several polynomial-vector evaluations with DIFFERENT (partial) slot mappings on ONE
+// polynomial evaluator.  The evaluator's CoefficientGetter fills a buffer it owns: slots a mapping does
+// not cover must evaluate to 0 whatever the previous evaluation left there (every slot is probed).
+func c13Sequences(c *Ctx, x *c13Ctx) {
+	L := x.rp.MaxLevel()
+	nseq := c.Scale(2, 8)
+	for it := 0; it < nseq; it++ {
+		tr := []string{}
+		if x.scheme == "bgv" {
+			real := bgv.NewEvaluator(x.bp, x.evk)
+			x.sbgv = bgvpoly.NewEvaluator(x.bp, real)
+			x.slog = &c13LogEval{Evaluator: real, tr: &tr, bgv: true}
+			x.sbgv.Evaluator.Evaluator = x.slog
+		} else {
+			real := ckks.NewEvaluator(x.cp, x.evk)
+			x.sckks = ckkspoly.NewEvaluator(x.cp, real)
+			x.slog = &c13LogEval{Evaluator: real, tr: &tr, bgv: false}
+			x.sckks.Evaluator.Evaluator = x.slog
+		}
+		deg := 1 + c.rng.Intn(7)
+		need := int(math.Ceil(math.Log2(float64(deg + 1))))
+		steps := 2 + c.rng.Intn(2)
+		for k := 0; k < steps; k++ {
+			cs := &c13Case{cheb: false, lazy: false, level: need + c.rng.Intn(L-need+1), scale: x.sc(c), tscale: x.sc(c), x: x.randX(c)}
+			np := 1 + c.rng.Intn(2)
+			cs.mapping = make([][]int, np)
+			for j := 0; j < x.slots; j++ {
+				var pick int
+				switch (it + k) % 3 {
+				case 0: // even slots only
+					pick = -1
+					if j%2 == 0 {
+						pick = j / 2 % np
+					}
+				case 1: // odd slots only
+					pick = -1
+					if j%2 == 1 {
+						pick = j / 2 % np
+					}
+				default: // random partial
+					pick = c.rng.Intn(np+1) - 1
+				}
+				if pick >= 0 {
+					cs.mapping[pick] = append(cs.mapping[pick], j)
+				}
+			}
+			for i := 0; i < np; i++ {
+				// non-zero coefficients everywhere, so that a stale entry is visible
+				p := x.randPoly(c, deg, 0)
+				for q := range p {
+					if p[q] == 0 {
+						p[q] = 1
+					}
+				}
+				cs.polys = append(cs.polys, p)
+			}
+			c.Count("sequence-on-one-evaluator")
+			x.runCase(c, cs)
+		}
+		x.sbgv, x.sckks, x.slog = nil, nil, nil
+	}
+}
+
+// c13SparseChebyshev (probes only): Chebyshev-basis polynomials stored the way circuits/ckks/mod1 stores
+// odd polynomials — `Coeffs[i] == nil` (not a zero value) for the skipped parity, IsOdd/IsEven set
+// accordingly — so that Factorize takes its "remainder coefficient is nil" paths.
+func c13SparseChebyshev(c *Ctx, x *c13Ctx) {
+	L := x.rp.MaxLevel()
+	maxDeg := c.Scale(31, 63)
+	for deg := 4; deg <= maxDeg; deg++ {
+		if !c.Thorough() && deg%3 == 0 {
+			continue
+		}
+		need := int(math.Ceil(math.Log2(float64(deg + 1))))
+		if need > L {
+			continue
+		}
+		odd := deg%2 == 1
+		// first split power of recursePS
+		logSplit := bignum.OptimalSplit(bits.Len64(uint64(deg)))
+		np := 1 << logSplit
+		for np < (deg>>1)+1 {
+			np <<= 1
+		}
+		coeffs := make([]int64, deg+1)
+		absent := make([]bool, deg+1)
+		for i := range coeffs {
+			if (i%2 == 1) != odd {
+				absent[i] = true // the skipped parity, as mod1 stores it
+				continue
+			}
+			coeffs[i] = int64(c.rng.Intn(5)) - 2
+			if coeffs[i] == 0 {
+				coeffs[i] = 1
+			}
+		}
+		// like 0.5*T5 + 0.25*T7: low-order entries of the active parity absent where the mirrored
+		// high-order entry (2*np - i) is present, so that the remainder entry is created by Factorize
+		for i := 0; i < np && i <= deg; i++ {
+			if !absent[i] && 2*np-i <= deg && deg >= np && c.rng.Intn(3) != 0 {
+				absent[i] = true
+				coeffs[i] = 0
+			}
+		}
+		f := make([]float64, deg+1)
+		for i := range f {
+			f[i] = float64(coeffs[i])
+		}
+		bp := bignum.NewPolynomial(bignum.Chebyshev, f, [2]float64{-1, 1})
+		for i := range bp.Coeffs {
+			if absent[i] {
+				bp.Coeffs[i] = nil
+			}
+		}
+		bp.IsOdd, bp.IsEven = odd, !odd
+		xs := x.randX(c)
+		lvl := need + c.rng.Intn(L-need+1)
+		tag := fmt.Sprintf("ckks logN=%d deg=%d odd=%d lvl=%d coeffs=%s x4=%s", x.logN, deg, b2i(odd), lvl, c12I64(coeffs), c12I64(xs))
+		bad := ""
+		status := Try(func() string {
+			pt := ckks.NewPlaintext(x.cp, lvl)
+			z := make([]float64, x.slots)
+			for i := range z {
+				z[i] = float64(xs[i]) / 4
+			}
+			if err := x.cecd.Encode(z, pt); err != nil {
+				panic(err)
+			}
+			ct, err := x.enc.EncryptNew(pt)
+			if err != nil {
+				panic(err)
+			}
+			pe := ckkspoly.NewEvaluator(x.cp, ckks.NewEvaluator(x.cp, x.evk))
+			out, err := pe.Evaluate(ct, cpoly.NewPolynomial(bp), x.cp.DefaultScale())
+			if err != nil {
+				return "err"
+			}
+			got := make([]float64, x.slots)
+			if err := x.cecd.Decode(x.dec.DecryptNew(out), got); err != nil {
+				panic(err)
+			}
+			for j := range got {
+				want := c13RefFloat(true, coeffs, z[j])
+				if !(math.Abs(got[j]-want) < 1.0/1024) && bad == "" {
+					bad = fmt.Sprintf("slot %d got %g want %g", j, got[j], want)
+				}
+			}
+			if out.Level() != lvl-need && bad == "" {
+				bad = fmt.Sprintf("out level %d, in %d, documented consumption %d", out.Level(), lvl, need)
+			}
+			return "ok"
+		})
+		if status != "ok" {
+			bad = "status=" + status
+		}
+		c.Count("sparse-chebyshev:" + status)
+		c.Probe("value_ckks_sparse_chebyshev", tag, "C13-ckks-sparse-chebyshev", bad)
 	}
 }
 
@@ -628,7 +808,37 @@ func c13Pure(c *Ctx) {
 		if cheb {
 			basis = bignum.Chebyshev
 		}
+		// nil (absent) coefficient entries: none / odd-only / even-only / low half absent / random
+		switch it % 6 {
+		case 1, 2:
+			for i := range in {
+				if i%2 == it%6-1 {
+					in[i] = 0
+				}
+			}
+		case 3:
+			for i := 0; i < (deg+1)/2; i++ {
+				in[i] = 0
+			}
+		case 4:
+			for i := range in {
+				if c.rng.Intn(2) == 0 {
+					in[i] = 0
+				}
+			}
+		}
+		for i := range f {
+			f[i] = float64(in[i])
+		}
 		p := bignum.NewPolynomial(basis, f, [2]float64{-1, 1})
+		if it%6 != 0 && it%6 != 5 {
+			for i := range p.Coeffs {
+				if in[i] == 0 {
+					p.Coeffs[i] = nil // the model treats an absent coefficient as 0
+				}
+			}
+			c.Count("factorize:nil-entries")
+		}
 		out := Try(func() string {
 			q, r := p.Factorize(n)
 			toI := func(pp bignum.Polynomial) []int64 {
